@@ -220,7 +220,9 @@ def _run(case, env):
         if opn == "earlier":
             # one generated crash point of an earlier operation: its result is
             # a crash state like any other and becomes the pre-state
-            k = (spec["at"] * n) // 1000
+            if n == 0:
+                continue       # the earlier operation touched nothing
+            k = min(n - 1, (spec["at"] * n) // 1000)
             _crash(runop, t0, d + "/w", k, "before", None, log[k][1])
             where = {"earlier": op["op"], "k": k, "of": n,
                      "at": [log[k][1], log[k][2].rsplit("/.bzr/", 1)[-1]]}
